@@ -13,6 +13,9 @@ THEOREMS_C15E = ["Slock.C15E.reply_is_before_lock", "Slock.C15E.reply_is_before_
 THEOREMS_C17R = ["Slock.C17R.reachable_refcounts", "Slock.C17R.keycount_exact", "Slock.C17R.waiter_has_no_expiry_entry", "Slock.C17R.nothing_leaks",
                  "Slock.C17R.queues_empty_of_no_live", "Slock.C17R.drain_live", "Slock.C17R.drain_tombstones",
                  "Slock.C17R.drain", "Slock.C17R.drain_partial"]
+# simulation stage 2 -> stage 1 through `abs` (Slock/Properties/EngineSim.lean); partial: see the header of that file
+THEOREMS_SIM = ["Slock.SimP.abs_is_key_local", "Slock.SimP.lock_branch_refines", "Slock.SimP.unlock_branch_refines",
+                "Slock.SimP.sim_lock_quiet", "Slock.SimP.sim_unlock_quiet", "Slock.SimP.admission_contract_transfers"]
 THEOREMS_C10 = ["Slock.C10.gate_lock", "Slock.C10.gate_unlock", "Slock.C10.no_journal_off_leader", "Slock.C10.follower_expiry_deferred",
                 "Slock.C10.follower_expiry_ended_only_after", "Slock.C10.follower_defers_again"]
 
@@ -82,6 +85,12 @@ def run_engine2(ctx, prefixes, n_quick=3000, n_thorough=40000, ops=40, extra=Non
         if not outdir:
             continue
         _check_outdir(ctx, outdir, mode, prefixes, "E-seq")
+
+
+def audit_sim(ctx):
+    """The stage-2 -> stage-1 simulation theorems proved so far (to be called from c01.py … c06.py / c17.py)."""
+    ctx.lake_build(["Slock.Properties.EngineSim"])
+    ctx.audit("Slock.Properties.EngineSim", THEOREMS_SIM)
 
 
 def run_c15_engine(ctx):
